@@ -55,7 +55,7 @@ def run(ck):
         ck.transitions += r.generated
         if expect_ok:
             for a, (tk, gn) in r.coverage.items():
-                ck.cov["Ring." + a] = ck.cov.get("Ring." + a, 0) + tk
+                ck.cov["Ring." + a] = ck.cov.get("Ring." + a, 0) + gn
             ck.note("SpscRing %s: %s" % (c, r.summary()))
             if r.violated:
                 weak = [t for t in table if (t["fn"] in mo_extract.PUSH and (t["load"] not in mo_extract.ACQ or t["store"] not in mo_extract.REL))
